@@ -24,7 +24,7 @@ VARIABLES indexable,   \* the summary carries what index-based reading needs
           pos, cached, hist
 vars == <<indexable, pos, cached, hist>>
 
-Ops == {"info", "access", "default", "idxfile", "idxlog", "scan"}
+Ops == {"info", "access", "default", "idxfile", "idxlog", "idxpair", "scan"}
 AllMsgs == [i \in 1 .. NChunks |-> i]
 From(p) == [i \in 1 .. NChunks - p |-> p + i]
 Full == [class |-> "ok", msgs |-> AllMsgs]
@@ -51,6 +51,12 @@ Do(op) ==
             \* record lexed at each; the stream is left behind whichever record was fetched last (or behind the summary)
             /\ pos' \in 0 .. NChunks /\ cached' = TRUE
             /\ hist' = Append(hist, [op |-> op, res |-> [class |-> "access", complete |-> TRUE]])
+       [] op = "idxpair" ->
+            \* two index-based iterators alive at once and advanced in turns (with record look-ups in between): every chunk load
+            \* seeks to the chunk's own offset, so neither disturbs the other; without the index the pair is not formed (no event)
+            /\ cached' = TRUE
+            /\ IF indexable THEN pos' \in 1 .. NChunks /\ hist' = Append(hist, [op |-> op, res |-> Full])
+                            ELSE pos' = AfterInfo /\ hist' = Append(hist, [op |-> op, res |-> Full])
        [] op \in {"default", "idxfile", "idxlog"} ->
             /\ cached' = TRUE
             /\ IF indexable
@@ -70,7 +76,7 @@ Do(op) ==
 Next == \E op \in Ops : Do(op)
 Spec == Init /\ [][Next]_vars
 
-ScanLike(h) == h.op = "scan" \/ (h.op \in {"default", "idxfile"} /\ ~indexable)
+ScanLike(h) == h.op = "scan" \/ (h.op \in {"default", "idxfile"} /\ ~indexable)   \* ("idxpair" is formed only over the index)
 
 (* C08: Info lists the whole summary whatever was done with the Reader before *)
 InfoStable == \A i \in DOMAIN hist : hist[i].op = "info" => hist[i].res = Fresh("info")
